@@ -37,20 +37,22 @@ Fixpoint vm_toks (flags : list bool) (outs : list out) : list vm_tok :=
 Definition vm_fuel : nat := (1000 * 100)%nat.
 Definition vm_graph (ct : amap) (ops : list op) (flags : list bool) : list vm_tok :=
   vm_toks flags (snd (run ct vm_fuel init_state ops)).
-Fixpoint vm_store (content : node -> list node) (isman : node -> bool) (univ : list N) (s : ostore)
-         (ops : list (option oop)) : list vm_tok * bool :=
+Fixpoint vm_store (content : node -> list node) (isman : node -> bool) (univ : list N) (a : astore)
+         (names : list (N * node)) (ops : list (option nop)) : list vm_tok * bool :=
   match ops with
   | [] => ([], true)
   | None :: r =>
-      let (t, ok) := vm_store content isman univ s r in
+      let (t, ok) := vm_store content isman univ a names r in
+      let s := a_s a in
       (TBl (vm_srt (o_blobs s)) ::
        map (fun i => TP (vm_known (predecessors_raw (o_graph s) i)) (vm_unk (predecessors_raw (o_graph s) i))) univ ++ t, ok)
   | Some o :: r =>
-      let (s', ok1) := ostep true true true content isman vm_fuel s o in
-      let (t, ok2) := vm_store content isman univ s' r in (t, ok1 && ok2)
+      let (names', l) := ntrans1 names o in
+      let (a', ok1) := arun content isman vm_fuel a l in
+      let (t, ok2) := vm_store content isman univ a' names' r in (t, ok1 && ok2)
   end.
-Definition vm_store_case (ct : amap) (mans univ : list N) (ops : list (option oop)) : list vm_tok * bool :=
-  vm_store (ctab ct) (fun x => smem x mans) univ empty_store ops.
+Definition vm_store_case (ct : amap) (mans univ : list N) (ops : list (option nop)) : list vm_tok * bool :=
+  vm_store (ctab ct) (fun x => smem x mans) univ empty_astore [] ops.
 """
 
 
@@ -115,19 +117,30 @@ def _vm_goal(case, out):
             if k == "S":
                 ops.append("None")
             elif k == "P":
-                ops.append("Some (PPush %s)" % a)
+                ops.append("Some (NOp (AOp (PPush %s)))" % a)
             elif k == "T":
-                ops.append("Some (PTag %s)" % a)
+                ops.append("Some (NOp (AOp (PTag %s)))" % a)
             elif k == "U":
-                ops.append("Some (PUntag %s)" % a)
+                ops.append("Some (NOp (AOp (PUntag %s)))" % a)
             elif k == "X":
-                ops.append("Some (PDelete %s)" % a)
+                ops.append("Some (NOp (AOp (PDelete %s)))" % a)
             elif k == "G":
-                ops.append("Some (PGC %s)" % _vm_list([x for x in a.split(".") if x]))
+                ops.append("Some (NOp (AOp (PGC %s)))" % _vm_list([x for x in a.split(".") if x]))
+            elif k == "N":
+                x, _, r = a.partition("=")
+                ops.append("Some (NTag %s %s)" % (x, r))
+            elif k == "M":
+                ops.append("Some (NUntag %s)" % a)
+            elif k == "s":
+                return None
             elif k == "O":
-                ops.append("Some PReopen")
+                ops.append("Some (NOp (AOp PReopen))")
             elif k == "F":
-                ops.append("Some (PForeign %s)" % _vm_list([x for x in a.split(".") if x]))
+                ops.append("Some (NOp (AOp (PForeign %s)))" % _vm_list([x for x in a.split(".") if x]))
+            elif k == "Y":
+                ops.append("Some (NOp (ASetAuto %s))" % ("true" if a == "1" else "false"))
+            elif k == "W":
+                ops.append("Some (NOp ASaveIndex)")
             else:
                 return None
         return ("vm_store_case (%s)%%N (%s)%%N (%s)%%N (%s)%%N\n  = ((%s)%%N, true)"
@@ -207,8 +220,8 @@ def _c07_vm_sample(d, tier, coq, build):
 
 CONFIG = {
     "properties_file": "Properties/C07.v",
-    "proof_files": ["Proofs/GraphMem.v", "Proofs/GraphStore.v", "Proofs/IndexLTS.v", "Proofs/Links.v"],
-    "model_files": ["Generated/GC07.v", "Model/GraphMem.v", "Model/GraphStore.v", "Model/IndexLTS.v", "Model/Links.v"],
+    "proof_files": ["Proofs/GraphMem.v", "Proofs/GraphStore.v", "Proofs/IndexLTS.v", "Proofs/StoreLTS.v", "Proofs/IndexAllLTS.v", "Proofs/Links.v"],
+    "model_files": ["Generated/GC07.v", "Model/GraphMem.v", "Model/GraphStore.v", "Model/IndexLTS.v", "Model/StoreLTS.v", "Model/IndexAllLTS.v", "Model/Links.v"],
     "extract": "XC07.v",
     "ml_main": "c07_main.ml",
     "harness": "c07",
@@ -219,20 +232,23 @@ CONFIG = {
     "assumptions": [
         "content.Successors is a function of the descriptor key (media type, digest, size): `content` is a universally quantified parameter of every theorem; nothing is assumed about SHA-2 or encoding/json (the differential run exercises the real content.Successors on real manifests)",
         "`sok n` (content.Successors succeeds for n) is a universally quantified parameter; the only failure modelled is errdef.ErrNotFound (IndexAll skips it); undecodable manifest bytes are outside the generator's universe",
-        "sync.RWMutex makes index / Remove / Predecessors atomic: concurrency is modelled as an arbitrary interleaving (permutation) of atomic operations; IndexAll's concurrent traversal (syncutil.Go + status.Tracker) is modelled by a sequential work-list whose final graph is proved to depend only on the set of reachable fetchable nodes",
+        "sync.RWMutex makes index / Remove / Predecessors atomic: concurrency is modelled as an arbitrary interleaving of atomic operations; IndexAll's concurrent traversal (syncutil.Go + status.Tracker) is modelled as an LTS with two atomic actions per task (tracker commit; index + start successor tasks) and every complete schedule is proved equivalent to the sequential work-list the reload theorems use (C07_indexall_every_schedule); the two actions and their order are re-read from memory.go (callseq calls_indexAll); errgroup waiting/cancellation is not modelled",
+        "concurrent OCI operations (Model/StoreLTS.v): Push = storage.Push, graph.Index, tag by digest, saveIndex; Tag = Exists, tag by digest, tag by name, saveIndex; Untag = untag, saveIndex, each step atomic (storage rename, graph lock, sync.Map store, indexLock); Delete/GC/reopen exclusive (Store.sync.Lock); the step order is re-read from oci.go (callseq calls_ociPush/TagInner/Tag/Untag); the LTS itself is not executed against the code (no scheduler control inside oci.Store): the tie is the quiescent state (burst stream vs sequential model) and the any-time oracle run inside the concurrent blocks",
+        "tag names (translate/ntrans1): the reference -> node map of resolver.Memory is kept by the model; Tag overwrites, the node that had the name loses it, Delete drops every name of the node; the harness issues the name-level step only for a Tag/Untag that succeeded (a failing Tag of absent content / Untag of an unknown name has no effect in the code and is not sent)",
+        "AutoSaveIndex/SaveIndex (astep): with the flag off no operation writes index.json, SaveIndex does; a reopen of an index that was not saved is reported by the model (ok=false) and excluded by the theorem's hypothesis; the harness, like a well-behaved caller, saves before every reopen and when it switches the flag back on",
         "IndexAll/load theorems have the hypothesis `ok = true` (fuel not exhausted); C07_reload_terminates proves a sufficient fuel exists for every finite closed universe; the extracted runner uses fuel 100000 and prints FUEL otherwise",
         "OCI store level (Model/GraphStore.v): blobs, by-digest/tagged resolver entries (= root list of index.json) and graph.Memory; one descriptor key per digest (no same-bytes-two-media-types twins in a store); only manifest media types have successors; which referrers gcIndex keeps (subject walk, map order) is a universally quantified argument of the GC step; index.json is part of the state (written by every manifest Push, Tag, Untag, by a delete that untagged something and by GC; AutoSaveIndex default), a reopen reloads resolver and graph from the file as last written; whether Store.GC writes it after restoring the digest references of reachable manifests is re-read from content/oci/oci.go on every run (callseq -> Generated/GC07.calls_GC -> gc_save_after_restore); resolver tag names, saveIndex encoding and GC errors/hangs (F1/F2) are outside this model (C08/C09)",
         "index persistence under concurrency (Model/IndexLTS.v): Push/Tag/Untag = storage+graph step, one resolver update (sync.Map operation, atomic), saveIndex; whether saveIndex takes its snapshot of the resolver map inside the indexLock section that writes the file is re-read from content/oci/oci.go on every run (translator kind callseq -> Generated/GC07.calls_saveIndex -> save_index_atomic); the rename in writeFileAtomic is atomic (C10); Delete and GC are exclusive (sync.Lock) and not part of the LTS; resolver entries are abstract numbers, the projection written to index.json is C08's matter",
         "scope (audit F3): histories consist of operations that complete; an operation aborted by the environment half-way (OCI Delete whose unlink fails with EPERM / an open handle after Untag, graph.Remove and saveIndex were done; a Push whose index.json write fails) is outside the quantifier of C07 and the statement is false there (C07_store_delete_error_refuted); no fault injection in the harness. A file-store Push that fails AFTER storing (restoring a duplicate under an unwritable name) IS covered (C07_file_history_exact_src, stream ftitle)",
         "file store (Model/GraphStore.v fstore): Push = store step (may refuse/discard), graph.Index, restore step (may fail), outcomes chosen by the environment; names, ForceCAS, IgnoreNoName, DisableOverwrite only matter through those outcomes; the order index-before-restore is re-read from file.go (callseq calls_filePush)",
         "OCI initial state (audit F2): a layout not written by this Store is covered as PForeign = index.json replaced by one that lists only tagged/top-level manifests and accounts for every stored manifest (listed, tagged or child of a stored manifest), then reopened; blobs still enter through Push. Stored manifests that the foreign index does not reach at all are unlisted garbage of that layout and outside. The store theorems assume content addressing as a rank function decreasing along successors (no cycles)",
-        "content.Successors (audit F4): hand model Model/Links.v of the five media-type cases, compared with the real function on every run (stream links: documents carrying all of subject/config/layers/manifests/blobs); sha384/sha512 digests, parent descriptors whose size/media type differ from the child's push descriptor (twins inside a store) are not generated",
-        "not generated (audit F7): AutoSaveIndex=false with explicit SaveIndex, Untag by digest, Tag with a Resolve()d octet-stream descriptor, raw graph.Memory blocks mixing Index/Remove/Predecessors concurrently (only Index blocks), the three-step structure of an OCI Push under concurrency beyond what IndexLTS models (storage+graph step abstracted; C07_concurrent_save_then_reload assumes every live manifest has its resolver entry, which sequentially is invariant J)",
+        "content.Successors (audit F4): Model/Links.v interprets the successor schema that the translator (kind linkschema) re-reads from the switch in content.Successors on every run (per media type the ordered document members: F, F*, F?); C07_links_exact is proved about that generated schema; compared with the real function on every run (stream links: documents carrying all of subject/config/layers/manifests/blobs); sha384/sha512-addressed nodes are generated in the chain stream only; parent descriptors whose size/media type differ from the child's push descriptor (twins inside a store) are not generated",
+        "not generated (audit F7): Untag by digest, Tag with a Resolve()d octet-stream descriptor, undecodable manifests (the merged Push deletes the blob again when graph.Index fails: not modelled)",
         "callseq ties (audit F6) see the source ORDER of the watched calls only (saveIndex: Lock, deferred Unlock, Map, writeIndexFile; Store.GC: gcIndex, graph.Exists, Resolve, Tag, saveIndex, ReadDir; delete: Remove, Tag, saveIndex, storage.Delete; file Push: push, Index, restoreDuplicates); conditions such as `if s.AutoSaveIndex` are not re-read; a changed anchor hash is recorded, not fatal; the dynamic streams (burst, chain, foreign, ftitle) are the second line",
         "OCI GC that does not return (defect F1, property C09) or returns an error (index.json naming swept blobs after an earlier GC, defect F2, properties C08/C09) is not judged by C07; the harness avoids histories whose GC outcome depends on Go map order",
     ],
-    "level_text": "Coq theorems over all histories: the three invariants of graph.Memory hold after every sequence of Index/Remove/IndexAll/fresh-graph operations with content appearing and disappearing; under the invariant Predecessors(n) is exactly (NoDup, iff) the nodes in memory whose successors contain n, present or not; Remove returns exactly the nodes that lost their last predecessor, for every map iteration order; every permutation of a push list gives the same predecessor sets; the graph rebuilt by loadIndex/gcIndex holds exactly the nodes reachable from the roots and answers like the live graph when every stored manifest is a root; at the OCI store level (blobs, index roots, graph) Predecessors equals the stored referencing nodes after every Push/Tag/Delete/GC/reopen history and a reopen changes no answer (repaired gcIndex; refuted with a witness for the code before the repair); for every interleaving of concurrent Push/Tag/Untag that runs to completion the index.json on disk equals the final resolver map when saveIndex snapshots under indexLock (as re-read from the source), hence reopen = live; refuted with a witness trace for the snapshot-outside-the-lock variant. The model is tied to internal/graph/memory.go by a differential run through a build-tagged hook and to the memory/OCI/file stores by end-to-end histories (push orders, concurrent pushes, Delete with and without AutoGC, Tag, GC, reopen via oci.New / NewFromFS / NewFromTar) judged by an independent oracle",
-    "level_note": "content.Successors and its success predicate are parameters; the OCI store-level invariant (stored manifests = graph manifests = roots of index.json) is proved for the repaired gcIndex over all Push/Tag/Delete/GC/reopen histories and refuted for the pre-fix code; memory store only pushes (C07_push_delete_exact); file store: Push modelled as store/index/restore steps with environment-chosen outcomes (C07_file_history_exact_src); operations aborted half-way by I/O faults are out of scope (witness C07_store_delete_error_refuted); 'config, layers, blobs, manifests or subject' = C07_links_exact over the hand model of content.Successors, tied by the links stream; theorems ignore the fuel flag (an out-of-fuel GC/reopen is a no-op in the model; C07_reload_terminates gives the fuel for load, no store-level termination theorem); GC hangs/errors caused by F1/F2 are not judged here; undecodable manifests not modelled",
+    "level_text": "Coq theorems over all histories: the three invariants of graph.Memory hold after every sequence of Index/Remove/IndexAll/fresh-graph operations with content appearing and disappearing; under the invariant Predecessors(n) is exactly (NoDup, iff) the nodes in memory whose successors contain n, present or not; Remove returns exactly the nodes that lost their last predecessor, for every map iteration order; every permutation of a push list gives the same predecessor sets; the graph rebuilt by loadIndex/gcIndex holds exactly the nodes reachable from the roots and answers like the live graph when every stored manifest is a root; at the OCI store level (blobs, index roots, graph) Predecessors equals the stored referencing nodes after every Push/Tag/Delete/GC/reopen history and a reopen changes no answer (repaired gcIndex; refuted with a witness for the code before the repair); the same for every interleaving of the atomic steps of concurrent Push/Tag/Untag with exclusive Delete/GC/reopen (exact at quiescence, reopen-stable, and at every intermediate state no extra answer and nothing missing except a Push between its storage and index steps); for AutoSaveIndex=false histories whose reopens happen on a saved index; every schedule of the concurrent IndexAll equals the sequential one; whole histories terminate for sufficient fuel; over the full operation language with tag names the store refines the abstract specification spec_preds (answer computed from the stored set alone); for every interleaving of concurrent Push/Tag/Untag that runs to completion the index.json on disk equals the final resolver map when saveIndex snapshots under indexLock (as re-read from the source), hence reopen = live; refuted with a witness trace for the snapshot-outside-the-lock variant. The model is tied to internal/graph/memory.go by a differential run through a build-tagged hook and to the memory/OCI/file stores by end-to-end histories (push orders, concurrent pushes, Delete with and without AutoGC, Tag, GC, reopen via oci.New / NewFromFS / NewFromTar) judged by an independent oracle",
+    "level_note": "content.Successors and its success predicate are parameters; the OCI store-level invariant (stored manifests = graph manifests = roots of index.json) is proved for the repaired gcIndex over all Push/Tag/Delete/GC/reopen histories and refuted for the pre-fix code; memory store only pushes (C07_push_delete_exact); file store: Push modelled as store/index/restore steps with environment-chosen outcomes (C07_file_history_exact_src); operations aborted half-way by I/O faults are out of scope (witness C07_store_delete_error_refuted); 'config, layers, blobs, manifests or subject' = C07_links_exact over the hand model of content.Successors, tied by the links stream; theorems ignore the fuel flag (an out-of-fuel GC/reopen is a no-op in the model) but C07_store_history_terminates shows sufficient fuel exists for whole histories; the concurrency LTSs (StoreLTS, IndexAllLTS, IndexLTS) are proved, not executed against the code: their tie is call-order translation + quiescent-state correspondence + the any-time oracle inside concurrent blocks; GC hangs/errors caused by F1/F2 are not judged here; undecodable manifests not modelled",
     "technique": "machine-checked proof in Coq (invariant over all operation histories, exactness, order independence, reachability characterisation of the IndexAll work-list) + model/implementation correspondence through a hook on graph.Memory + end-to-end oracle on the three stores",
-    "explanation": "theorems over all histories about the executable model of graph.Memory (index, Remove with danglings, IndexAll, Predecessors); the extracted model and the real graph.Memory are run on the same random histories and every output compared; memory, OCI and file stores are driven through the public API in random push orders (sequential and concurrent) followed by Delete/Tag/GC/re-push/reopen histories, every node queried after every step and compared with the generator's inverse edge list restricted to stored parents, and with the model; a chain stream runs push tower -> Tag(root) -> GC -> reopen -> Delete(parents) -> reopen sequences (what each step leaves in index.json is all the next reopen sees); a dedicated burst stream pushes 16-32 distinct manifests sharing children from as many goroutines (optionally with concurrent Tag/Untag) into one OCI store and immediately reopens it via NewFromFS, NewFromTar and oci.New, judging every node against the blobs on disk; a sample of the correspondence cases is re-evaluated inside Coq with vm_compute (post_model hook)",
+    "explanation": "theorems over all histories about the executable model of graph.Memory (index, Remove with danglings, IndexAll, Predecessors); the extracted model and the real graph.Memory are run on the same random histories and every output compared; memory, OCI and file stores are driven through the public API in random push orders (sequential and concurrent) followed by Delete/Tag/GC/re-push/reopen histories, every node queried after every step and compared with the generator's inverse edge list restricted to stored parents, and with the model; a chain stream runs push tower -> Tag(root) -> GC -> reopen -> Delete(parents) -> reopen sequences (what each step leaves in index.json is all the next reopen sees); a dedicated burst stream pushes 16-32 distinct manifests sharing children from as many goroutines (optionally with concurrent Tag/Untag) into one OCI store and immediately reopens it via NewFromFS, NewFromTar and oci.New, judging every node against the blobs on disk; the index.json on disk (listed / named entries) is compared with the model's file component after every step; AutoSaveIndex off/on and SaveIndex are generated; while a concurrent block runs a reader checks every Predecessors answer (no extras/duplicates, earlier content and completed pushes present); sha512/sha384-addressed nodes go through NewFromTar (long names); every case runs under a watchdog (a wedge becomes an oracle failure after confirmation in a fresh process); a sample of the correspondence cases is re-evaluated inside Coq with vm_compute (post_model hook)",
 }
